@@ -396,10 +396,13 @@ pub fn c14(ctx: &Ctx) -> PropResult {
             cases.push(run_case(src, "native-list-freshness"));
         }
     }
+    for src in crate::props6::combining_marks_family() {
+        cases.push(run_case(src, "combining-marks"));
+    }
     let stats = run_cases(&ctx.driver, cases, &oracle, &no_known, ctx.threads);
     PropResult {
         stats,
-        rule: format!("every string of length <= {max} over {{a, b, blank, é, 中, 😀}} through all one-argument STRING procedures, LENGTH / FOR EACH / largest valid index consistency, a sample of patterns of length <= 2 for CONTAINS / STARTS_WITH / ENDS_WITH / SPLIT / JOIN / REPLACE with the law JOIN(SPLIT(s,p),p) = s evaluated in-language, SUBSTRING with start / length over {{-1, 0, 0.5, 1, 1.9, 2, LENGTH, LENGTH+1, NaN, inf}}; TO_NUMBER / TO_BOOL on 27 spellings; random Unicode strings incl. case-mapping specials (ß, İ, ǅ, ﬁ) and Unicode blanks; non-trivial = ended normally or with a runtime error; SPLIT called twice with the first result changed in between; fragments of number syntax; texts with LF / CR LF / lone CR / tabs through SPLIT / JOIN / REPLACE / CONTAINS / TRIM; JOIN over lists of length 0 .. 2 of every element kind with the result's type observed"),
+        rule: format!("every string of length <= {max} over {{a, b, blank, é, 中, 😀}} through all one-argument STRING procedures, LENGTH / FOR EACH / largest valid index consistency, a sample of patterns of length <= 2 for CONTAINS / STARTS_WITH / ENDS_WITH / SPLIT / JOIN / REPLACE with the law JOIN(SPLIT(s,p),p) = s evaluated in-language, SUBSTRING with start / length over {{-1, 0, 0.5, 1, 1.9, 2, LENGTH, LENGTH+1, NaN, inf}}; TO_NUMBER / TO_BOOL on 27 spellings; random Unicode strings incl. case-mapping specials (ß, İ, ǅ, ﬁ) and Unicode blanks; non-trivial = ended normally or with a runtime error; SPLIT called twice with the first result changed in between; fragments of number syntax; texts with LF / CR LF / lone CR / tabs through SPLIT / JOIN / REPLACE / CONTAINS / TRIM; JOIN over lists of length 0 .. 2 of every element kind with the result's type observed; texts with combining marks, emoji modifiers, flag sequences, joiners and variation selectors"),
         exhaustive: false,
         notes: vec!["Σ (final-sigma rule of to_lowercase) is excluded from the alphabets: the model's TO_LOWER is context-free".into()],
     }
@@ -696,10 +699,13 @@ pub fn c16(ctx: &Ctx) -> PropResult {
     for src in crate::props6::library_result_identity_family() {
         cases.push(run_case(src, "library-result-identity"));
     }
+    for src in crate::props6::close_keys_family() {
+        cases.push(run_case(src, "close-keys"));
+    }
     let stats = run_cases(&ctx.driver, cases, &oracle, &no_known, ctx.threads);
     PropResult {
         stats,
-        rule: "histories of MAP_INSERT / MAP_GET / MAP_CONTAINS_KEY on two maps with keys {1, 1.0, 0, -0, \"1\", TRUE, FALSE, NULL, NaN, 2, \"\", \"a\", 0.5}: all histories of length 2 (after an initial insert; quick: a sample), random histories of length 3-40, each followed by the sizes of MAP_KEYS / MAP_VALUES and a membership probe per key; every non-map value as the map argument of every MAP procedure; every result line compared with the model (association list proved equal to the ideal finite map); MAP_KEYS / MAP_VALUES called twice with the first result changed in between (filled, empty, new map); values equal to the stored one but distinguishable (0 / -0, equal-contents lists); stored lists that come out of MAP_GET / MAP_INSERT / MAP_VALUES changed through the result and through the original; maps as values of maps (itself, an alias, another, lists of maps)".into(),
+        rule: "histories of MAP_INSERT / MAP_GET / MAP_CONTAINS_KEY on two maps with keys {1, 1.0, 0, -0, \"1\", TRUE, FALSE, NULL, NaN, 2, \"\", \"a\", 0.5}: all histories of length 2 (after an initial insert; quick: a sample), random histories of length 3-40, each followed by the sizes of MAP_KEYS / MAP_VALUES and a membership probe per key; every non-map value as the map argument of every MAP procedure; every result line compared with the model (association list proved equal to the ideal finite map); MAP_KEYS / MAP_VALUES called twice with the first result changed in between (filled, empty, new map); values equal to the stored one but distinguishable (0 / -0, equal-contents lists); stored lists that come out of MAP_GET / MAP_INSERT / MAP_VALUES changed through the result and through the original; maps as values of maps (itself, an alias, another, lists of maps); key pairs that agree to nine decimals but are different numbers in the language".into(),
         exhaustive: !ctx.quick(),
         notes: vec!["numeric keys that are == in the language but not IEEE-equal (within epsilon), and infinite keys, are outside the generator: known finding, see known_findings.txt".into()],
     }
